@@ -26,7 +26,7 @@ head = """## Appendix B. Seeded changes: which checks catch which
 |---|---|---|
 """ % total
 tail = """
-Totals: %d of %d caught by the targeted property's quick check. Not caught by the targeted check: C10-m5 and C10-m7 (they break C19/C07 and C05, whose quick checks catch them, but not the agreement C10 states), C10-m8 (argued to violate no listed property, see its row), C02-m1 (the C01 table puts no subtype condition on interface implementation, so the world is derivable under the table; the original refuses, the mutant accepts, both inside it) and C18-m3 (needs six vertices; outside the quick bound). Several agents' changes revert earlier repairs (C11-m2 and C17-m2 revert fix N, C08-m1/C08-m3 half of fix G): the checks that found the original defects catch their return, as a `fixed:` entry requires.
+Totals: %d of %d caught by the targeted property's quick check. Not caught by the targeted check: C10-m5 and C10-m7 (they break C19/C07 and C05, whose quick checks catch them, but not the agreement C10 states), C10-m8 (argued to violate no listed property, see its row), C02-m1 (the C01 table puts no subtype condition on interface implementation, so the world is derivable under the table; the original refuses, the mutant accepts, both inside it) and C18-m3 (needs six vertices; outside the quick bound). Four early changes (C09-m2, C09-m3, C09-m5, C06-m4) rewrite the part of `redefineInputs` that the later repairs R and S touch and no longer apply to /repo's HEAD; they are kept with the verdict and the commit (`repo_head` in meta.json) they were validated against. All other rows were re-run against the final tree (`tools/seed.py --fast`). Several agents' changes revert earlier repairs (C11-m2 and C17-m2 revert fix N, C08-m1/C08-m3 half of fix G): the checks that found the original defects catch their return, as a `fixed:` entry requires.
 """ % (caught, total)
 p = os.path.join(V, 'DESIGN.md')
 s = open(p).read()
